@@ -112,7 +112,7 @@ def c18(ctx: Ctx):
         with open(cases, "a") as f:
             f.writelines(open(deepcases))
         ctx.unquote(ctx.spec("points.ndjson"), points)
-        ctx.exhaustive = True
+        ctx.exhaustive = False      # the tier drives seeded slices (VERIF_SEED) next to its exhaustive core: not a complete enumeration of one finite space
         if tier == "thorough":
             # deeper types (up to 5 wraps) sampled by TLC's simulator from the same generator
             os.remove(ctx.spec("cases.ndjson"))
